@@ -89,7 +89,7 @@ def solve_problem(P, ts, steps=2, dt=0.25):
         bf.b = np.asarray(co["b"], dtype=float).reshape(sh)
         bf.c = np.asarray(co["c"], dtype=float).reshape(np.asarray(bf._c).shape)
     for ax in P["periodic"]:
-        U.set_periodic(bc, ax, U.flag_mode(ax, sum(P["shape"]), len(ts)))
+        U.set_periodic(bc, ax, P.get("pmode") or U.flag_mode(ax, sum(P["shape"]), len(ts)))
     phi = pf.CellVariable(mesh, np.array(P["phi0"], dtype=float), bc)
     D = U.face_from_arrays(mesh, P["D"])
     u = U.face_from_arrays(mesh, P["u"])
@@ -338,10 +338,12 @@ def run_case(case):
         d = U.dim(cls)
         shape = (2, 3) if d == 2 else (2, 3, 1)
         for kv in KINDVECS:
-            for per in ([()] + [(ax,) for ax in range(d)]):
+            for per, mi in ([((), 0)] + [((ax,), m_) for ax in range(d) for m_ in range(3)]):
                 sp = tuple("U" if ax in per else case["sp"] for ax in range(d))
                 P = make_problem(cls, shape, sp, 1, kv, per)
                 Q = permute(P, perm)
+                if per:     # the periodic axis is declared on both faces / the low face / the high face; the permuted problem another way
+                    P["pmode"], Q["pmode"] = U.FLAG_MODES[mi], U.FLAG_MODES[(mi + 1) % 3]
                 for ts in TERMSETS:
                     if per and ("U" in ts):
                         continue      # upwind across a periodic seam: recorded finding, orientation dependent only via the seam
@@ -371,9 +373,21 @@ def run_case(case):
             P = make_problem(cls, shape, sp, 1, kv, (ax,))
             for k in range(1, shape[ax]):
                 Q = shift(P, ax, k)
+                P["pmode"], Q["pmode"] = U.FLAG_MODES[k % 3], U.FLAG_MODES[(k + 1) % 3]
                 for ts in TERMSETS:
                     fP, kP = solve_problem(P, ts)
                     fQ, kQ = solve_problem(Q, ts)
+                    # the boundary values along the periodic axis are the wrapped interior values, in both problems
+                    for nm_, f_ in (("original", fP), ("shifted", fQ)):
+                        lo_, hi_, in1_, inN_ = ([slice(1, -1)] * d for _ in range(4))
+                        lo_[ax], hi_[ax], in1_[ax], inN_[ax] = 0, -1, 1, -2
+                        res["evals"] += 1
+                        if not (np.array_equal(f_[tuple(lo_)], f_[tuple(inN_)]) and np.array_equal(f_[tuple(hi_)], f_[tuple(in1_)])):
+                            kk = "C08:shift_ghosts:%s:axis=%d" % (cls, ax)
+                            if kk not in seen:
+                                seen.add(kk)
+                                F.append({"key": kk, "msg": "%s, periodic axis %d declared on %s (%s problem), terms %s: boundary values along the periodic axis are not the wrapped interior values"
+                                                            % (cls, ax, (P if nm_ == "original" else Q)["pmode"], nm_, "+".join(ts)), "detail": dict(case, terms=list(ts), kinds=kv)})
                     sl = [slice(None)] * d
                     sl[ax] = slice(1, -1)
                     a = fP[tuple(sl)]
